@@ -10,10 +10,18 @@ CHECKS = {
    text='Coq theorems (Properties_C01.v): limb-level models of mpn_mul_1/addmul_1/submul_1 and of mpn_mul_basecase return exactly u*v (+/- r) with every result limb and the returned high limb, for every length and content; the Karatsuba recombination with its |xh-xl||yh-yl| sign rule equals x*y for every split size, threshold and recursion depth; the mpz_mul/mul_ui/mul_si/addmul/submul(_ui) models return the exact signed value and a well-formed object; the parameter selection of mpn_mul_fft_main (regenerated FFT_TAB) yields for ALL operand sizes and all well-formed tables a (depth,w) for which no convolution coefficient wraps. Correspondence: every multiplication entry point vs the model at all size pairs <= 24, at every crossover of the regenerated threshold table +-1, strips, all-ones data, same-pointer operands; (depth,w) observed by link-time wrapping compared with the model.',
    note='Not proved, tied by execution only: limb-level Toom-3/4/8h evaluation/interpolation, the FFT transforms, assembly sqr_basecase/mullow/mulmid. Above 96 limbs (quick) products are compared through residues modulo four moduli (theorem C01_mul_residues). Trusted: Coq kernel, extraction, drivers, generators, translator/gen_tables.py.',
    design='6/C01'),
+ 'C02': dict(
+   text='Coq theorems (Properties_C02.v): the gmp-impl.h macros transcribed with explicit wrap-around — invert_limb, udiv_qrnnd_preinv1, mpir_invert_pi1 and the Moeller-Granlund udiv_qr_3by2 step — return the exact quotient and remainder for every normalised divisor and every dividend in their domain (all correction branches, equality edges); the mpn_divrem_1/mod_1 recurrence gives n = q d + r, r < d for every length and every non-zero limb; the mpz families tdiv/fdiv/cdiv (q, r, qr, _ui with return |r|, _2exp), mod, divexact, divisible_p, congruent_p(_2exp) equal Z.quot/Z.rem, floor and ceiling division with the manual\'s remainder signs, d = 0 being the DivByZero tag or the manual\'s defined answer. Correspondence: 90 000 cases incl. operands constructed so that quotient estimates are one or two too large (minimal normalised top limbs, all-ones below, tiny top limb), equal leading limbs, every one-limb divisor class, divisors with zero low limbs, all signs and alias patterns, sizes around each division crossover; large divisions certified by the model through n = q d + r modulo four moduli and 0 <= r < d.',
+   note='Not proved, tied by execution only: sb_div_qr/dc_div_*/inv_div_*/mpn_invert/Hensel and bdiv routines and the assembly division kernels (mpn_tdiv_qr is compared with Z division in every regime). DIVIDE_BY_ZERO observed as SIGFPE. Trusted: Coq kernel, extraction, drivers, generators.',
+   design='6/C02'),
  'C03': dict(
    text='Coq theorems (Properties_C03.v): for every length and limb content the models of mpn_add_n/sub_n/add_1/sub_1/add/sub/neg_n/com_n/lshift/rshift/cmp/zero_p/zero equal the exact integer function incl. returned carry/borrow/shifted-out bits; the C loops over a shared memory give the same result for every permitted overlap; the mpz_add/sub/add_ui/sub_ui/ui_sub/neg/abs/mul_2exp/set/swap models return the exact signed value and a well-formed object. The models are tied to /repo by running the extracted model and the freshly built library on the same generated cases.',
    note='Trusted: Coq kernel, extraction (ExtrOcamlBasic), OCaml/C drivers, generators. Modelled, not verified: the C source itself (tied by execution); assembly kernels add_err*/sub_err* are outside (C14).',
    design='6/C03'),
+ 'C05': dict(
+   text='Coq theorems (Properties_C05.v): in the variable-store semantics of a call (same variable = same key) the output holds the function of the INITIAL input values whatever subset of inputs it coincides with and every non-output variable keeps its value (one and two outputs, the latter under the manual\'s q <> r restriction); the mpn add_n/sub_n/copyi/copyd/lshift/rshift C loops on one shared memory compute the pure function for every overlap the manual permits. Tie to the code: the prototype table is regenerated from gmp-h.in and EVERY permitted alias partition of the object arguments of all 122 mpz/mpq/mpf functions (377 partitions) is run: distinct variables vs the aliased arrangement on equal values under an always-moving, poisoning allocator with minimal destination allocation; every argument, return value and format rule is compared.',
+   note='The store theorems are a specification of aliasing, not a pointer-level model of each C function: for mpz/mpq/mpf functions the property is decided by exhaustive enumeration of alias partitions on the implementation (values are sampled per partition). Functions with string/FILE/random-state/raw-pointer arguments are outside this harness. Trusted: translator/gen_protos.py, harness/ops_alias.c.',
+   design='6/C05', technique='Coq theorems (store semantics, mpn overlap on shared memory) + exhaustive alias-partition enumeration of the regenerated prototype table against libmpir.a (metamorphic distinct-vs-aliased)'),
  'C10': dict(
    text='Coq theorems (Properties_C10.v): limb-wise and_n/andn_n/ior_n/iorn_n/nand_n/nior_n/xor_n/xnor_n equal Z.land/Z.lor/Z.lxor (and complements) of the values for every length; popcount/hamdist count set bits; scan0/scan1 return the least matching bit at or above the start or the largest bit count exactly when none exists; mpz_and/ior/xor/com built from |x|-1, limb-wise op, +1 equal Z.land/Z.lor/Z.lxor/Z.lnot on signed values for all four sign combinations and all lengths, results well-formed; mpz_tstbit transcribed from tstbit.c equals Z.testbit; setbit/clrbit/combit equal Z.setbit/Z.clearbit/xor 2^k; mpz_popcount/hamdist incl. the "infinite" answers. Correspondence on 46 000 cases aimed at negative operands with low/interior zero limbs, -1, -2^k, complement blocks, bit indices below/at/above the length.',
    note='mpz logical functions are modelled through the identities the C code uses, not each in-place loop; scan/popcount/hamdist at value level. Tied by execution. Trusted: Coq kernel, extraction, drivers, generators.',
